@@ -82,12 +82,13 @@ func (s *JavaAPIListener) EnterAnnotation(ctx *parser.AnnotationContext) {
 		isSpringRestController = true
 	}
 
-	if !isSpringRestController {
-		return
-	}
-
+	// a class-level annotation: @RequestMapping gives the base path, before or after @RestController
 	if !hasEnterClass {
 		buildBaseApiUrlString(annotationName, ctx)
+	}
+
+	if !isSpringRestController {
+		return
 	}
 
 	notAPI := annotationName == "RequestMapping" || annotationName == "GetMapping" || annotationName == "PutMapping" || annotationName == "PostMapping" || annotationName == "DeleteMapping"
